@@ -688,11 +688,16 @@ func runC14(tier string) int {
 	{
 		work := workDir()
 		fx := NewFixture(work+"/fx", nil)
-		depth, dev := 2, 2
 		if tier == "thorough" {
-			depth, dev = 3, 3
+			// depth 3 with 3 deviations is ~10^8 runs of the instrumented registry (more than an
+			// hour): the thorough tier goes one step further in each dimension separately
+			e2Order(fx, work, rep, 3, 2)
+			e2Order(fx, work, rep, 2, 3)
+			rep.Set("order_leg_bounds", "sequences of depth 3 with <=2 non-default map orders, and depth 2 with <=3")
+		} else {
+			e2Order(fx, work, rep, 2, 2)
+			rep.Set("order_leg_bounds", "sequences of depth 2 with <=2 non-default map orders")
 		}
-		e2Order(fx, work, rep, depth, dev)
 		cleanup(work)
 	}
 	runC14E1(rep, tier)
